@@ -734,3 +734,29 @@ FB("C02", "helper-intersects-carrier-line", "neutral-M3", AUX, "_add_point_inter
    "inter = body.intersection(other)", "inter = body.intersection(other.line)", rule="R2.1")
 FB("C11", "normalised-pair-wrong-predicate", "neutral-M6", C + "angle.py", "parallel",
    "return a.dv.orthogonal(b.n)", "return a.dv.parallel(b.n)", rule="R11.3")
+
+
+# =========================================================================== positive controls for rules with no instance today
+# (the handlers contain no numeric pre-filter on the pinned tree; these variants must be reported -- the quick tier runs them
+# too, so that the rule cannot pass vacuously, cf. CONTROLS below)
+F("C01", "control-exact-numeric-rejection", INTER, "inter_plane_halfline",
+  "    inter_p_l = intersection(a, b.line)\n",
+  "    if a.n * Vector(a.p, b.point) * (a.n * b.vector) > 0:\n        return None\n    inter_p_l = intersection(a, b.line)\n", rule="R1.4")
+F("C02", "control-exact-numeric-rejection", INTER, "inter_convexpolyhedron_halfline",
+  "    inter_point_set = get_halfline_convexpolyhedron_intersection_point_set(h, cph)\n",
+  "    if Vector(h.point, cph.center_point) * h.vector < 0:\n        return None\n    inter_point_set = get_halfline_convexpolyhedron_intersection_point_set(h, cph)\n",
+  rule="R2.5")
+F("C03", "control-exact-numeric-rejection", INTER, "inter_convexpolygon_convexpolygon",
+  "    inter_p_p = intersection(a.plane, b.plane)\n",
+  "    if Vector(a.center_point, b.center_point).length() > a.length() + b.length():\n        return None\n    inter_p_p = intersection(a.plane, b.plane)\n",
+  rule="R3.4")
+F("C12", "control-exact-numeric-rejection", INTER, "inter_plane_halfline",
+  "    inter_p_l = intersection(a, b.line)\n",
+  "    if a.n * Vector(a.p, b.point) * (a.n * b.vector) > 0:\n        return None\n    inter_p_l = intersection(a, b.line)\n", rule="R12.3")
+
+CONTROLS = {
+    "C01": ["C01:control-exact-numeric-rejection"],
+    "C02": ["C02:control-exact-numeric-rejection"],
+    "C03": ["C03:control-exact-numeric-rejection"],
+    "C12": ["C12:control-exact-numeric-rejection"],
+}
